@@ -23,6 +23,7 @@ ASSUMPTIONS = ["lines contain no CR/LF (not carriable); comparison of text is mo
                "the negative case uses a *terminating* line with a different code (a mismatch in the middle leaves the "
                "rest of that reply in the stream by construction of the rejecting decoder)"]
 REQUIRED_MONITORS = ["roundtrip", "negative", "matches", "command_loop", "command_line"]
+ANCHOR_FUNCTIONS = ['server.py:Server.write_response', 'client.py:BaseClient.parse_response', 'client.py:Code.matches', 'server.py:Server.parse_command']
 EXHAUSTIVE = {"quick": False, "thorough": False}
 
 LINE_POOL = ["", "ok", "250-x", "250 x", "-x", " x", "  two", "a  b", "123", "1", "12 files", "226 done", "226-more", "²³¹ sup",
